@@ -373,7 +373,9 @@ def rule_dec(ctx, R):
     ctx.check(table or nested, "DEC", b, "four-nested-pulls", b.span,
               "the decoder pulls at most four bytes, each later pull only after the earlier ones; found %d pull sites (decision table: %s)"
               % (len(pulls), text))
-    if not nested:
+    if table or not nested:
+        # the table decides: it is exact on the valid lead bytes (e.g. `first & 0x3f` for `first & 0x1f` in the two-byte arm is the
+        # same function there, because bit 5 of 0xC2..0xDF is clear), which the mask-by-mask clauses below are not
         if table:
             _dec_common(ctx, lib, b, S, pulls)
         return
